@@ -13,8 +13,9 @@ top-level functions, application of function values, lambdas (closures), pipes, 
 Fold with any function value, union match (binders, `_`, default) and string match in return and in
 expression position, recursion.
 Hypothesis `wfProg` (decidable, checked per program by the oracle): the given arguments of a partial
-application are literals or variables not named like the closure parameters `_r0 …` — with any
-effectful argument the lowering is NOT faithful (known finding D9, Props/C01.papp_effects_late).
+application are PURE: built from literals, variables not named like the closure parameters `_r0 …`,
+and output-free primitives (constructors, operators, …) — with an effectful argument the lowering is
+NOT faithful (known finding D9, Props/C01.papp_effects_late).
 What the theorem is about: the models `lowerE …` (Sem/Lower.lean) and `gevalN` (Sem/GoCore.lean);
 both are tied to the real compiler and to real Go on every run (stream sem.prog; DESIGN §0).
 -/
@@ -126,7 +127,7 @@ theorem sim_step (hP : wfProg P) (ih : SimAt P n) : SimAt P (n + 1) := by
         exact g_ifElse_false _ (g_lift_expr _ (by omega) hg1) (g_lift_body _ (by omega) hg2)
       · cases h2
     | call f arity args =>
-      have hw : wfL args = true ∧ (if args.length < arity then args.all (isAtomFor (restNames (arity - args.length))) else true) = true := by
+      have hw : wfL args = true ∧ (if args.length < arity then isPureForL (restNames (arity - args.length)) args else true) = true := by
         simpa [wfE] using hwf
       simp only [stepExpr] at h
       obtain ⟨t1, vs, t2, h1, h2, rfl⟩ := Res.bind_eq_some.mp h
@@ -136,8 +137,8 @@ theorem sim_step (hP : wfProg P) (ih : SimAt P n) : SimAt P (n + 1) := by
         simp only [hlt, if_true] at h2
         obtain ⟨rfl, rfl⟩ := Res.pure_eq_some.mp h2
         have hlt' : args.length < arity := hlen ▸ hlt
-        have hat : args.all (isAtomFor (restNames (arity - args.length))) = true := by simpa [hlt'] using hw.2
-        obtain ⟨rfl, gvs, hga, hrv, hall⟩ := sim_atoms (restNames (arity - args.length)) h1 hat he
+        have hat : isPureForL (restNames (arity - args.length)) args = true := by simpa [hlt'] using hw.2
+        obtain ⟨rfl, gvs, hga, hrv, hall⟩ := sim_pures (restNames (arity - args.length)) n h1 hat he
         refine ⟨1, .clo (restNames (arity - args.length))
           (.mk [] (.ret (.callFn f (lowerL args ++ (restNames (arity - args.length)).map GExpr.var)))) genv, ?_, ?_⟩
         · simp only [lowerE, hlt', if_true, List.append_nil]
@@ -296,7 +297,7 @@ theorem sim_step (hP : wfProg P) (ih : SimAt P n) : SimAt P (n + 1) := by
         exact ⟨m + 1, gv, g_app_clo _ (by rw [hlen, hargs.length]) hg, hr⟩
       · cases h
     | pap hlt hga hvs hall =>
-      rename_i fn arity vs ges gvs genv
+      rename_i fn arity vs ges gvs genv k
       simp only [stepApp] at h
       obtain ⟨d, hfind, hpl, m, gv, hg, hr⟩ := sim_applyFull hP ih h (VRels.append hvs hargs)
       -- the number of actual arguments is the number of closure parameters
@@ -307,12 +308,13 @@ theorem sim_step (hP : wfProg P) (ih : SimAt P n) : SimAt P (n + 1) := by
           rw [restNames_length, ← hargs.length]
           simp at hl; omega
         · cases h
-      refine ⟨m + 4, gv, ?_, hr⟩
+      refine ⟨m + k + 4, gv, ?_, hr⟩
       apply g_app_clo _ hargsLen
       have hargsEval := evalList_append
-        (evalList_atoms (lowerProg P) m (restNames (arity - vs.length)) gargs genv ges gvs hga hall)
-        (evalList_rest_vars (lowerProg P) m (restNames (arity - vs.length)) gargs genv (restNames_nodup _) hargsLen)
-      have hcall := g_callFn (lowerProg P) hargsEval (find_lower hfind) hpl (g_lift_body _ (Nat.le_succ m) hg)
+        (g_lift_list (lowerProg P) (show k ≤ m + k + 1 by omega)
+          (geval_pures (lowerProg P) (restNames (arity - vs.length)) gargs genv k ges gvs hga hall))
+        (evalList_rest_vars (lowerProg P) (m + k) (restNames (arity - vs.length)) gargs genv (restNames_nodup _) hargsLen)
+      have hcall := g_callFn (lowerProg P) hargsEval (find_lower hfind) hpl (g_lift_body _ (show m ≤ m + k + 1 by omega) hg)
       have hb := g_body_ret (lowerProg P) (grunStmts_nil _ _) hcall
       simpa using hb
 
